@@ -47,6 +47,10 @@ MAPS = [
     (".map identifier=2 bank_range=64, 111 addr_range=0, 65535 mask=65536 mirror_bank_range=0b11000000,0b11101111\n"
      ".map identifier=3 bank_range=126,127 addr_range=0,65535 mask=65536 writable=1\n", 0x41FFF0, 0x7E0010,
      [(0x40, 0x6F, 0x10000, False), (0xC0, 0xEF, 0x10000, False), (0x7E, 0x7F, 0x10000, True)]),
+    # save RAM declared writable AND mirrored, its window (0x0000-0x7fff) in the low half of the bank: the mirror banks are RAM too
+    *[(".map identifier=1 bank_range=0x00,0x3f addr_range=0x8000,0xffff mask=0x8000\n"
+       ".map identifier=2 bank_range=0x70,0x7d addr_range=0,0x7fff mask=0x8000 writable=1 mirror_bank_range=0xf0,0xfd\n", 0x018000, ram,
+       [(0x00, 0x3F, 0x8000, False), (0x70, 0x7D, 0x8000, True), (0xF0, 0xFD, 0x8000, True)]) for ram in (0xF10200, 0x710010)],
     # a later declaration takes banks away from an earlier one
     (".map identifier=1 bank_range=0x00,0x7f addr_range=0x8000,0xffff mask=0x8000\n"
      ".map identifier=2 bank_range=0x20,0x2f addr_range=0,0xffff mask=0x10000\n", 0x21FFF0, 0x308000,
@@ -145,6 +149,8 @@ def cases(ctx):
         for body in ("nop\n.db 1,2,3\nl:\n.dl l\n", f"lda.w #0x1234\n@={ram:#08x}\nr:\n.dl r\n*={org + 0x20:#08x}\nrts\n",
                      # *= into the declared RAM region (`writable=1`): the output stays contiguous
                      *([f".db 1\n*={ram:#08x}\nv:\n.db 2, 3\n.dl v\n*={org + 0x40:#08x}\n.db 4\n"] if ram_is_ram else []),
+                     # several statements behind a @= into the other region: each runs behind the one before
+                     f".db 9\n@={ram:#08x}\n.db 1\nnop\nlda.w #0x1234\nr2:\n.dl r2\nr3:\n.dl r3\n*={org + 0x60:#08x}\nrts\n",
                      ".db 1,2,3,4,5,6,7,8,9,10,11,12,13,14,15,16,17,18\nend:\n.dl end\n"):
             # with a built-in mapping chosen first (as the front ends do) and without (the bare library entry point)
             for rom in ("low", None, "high"):
